@@ -205,13 +205,14 @@ def inputs(tier):
         "name": "nested+links",
         "files": {"m.c": '#include "inc/h.h"\nint m;\n#ifdef A\nint ma;\n#endif\n#ifdef B\nint mb;\n#endif\n', "inc/h.h": "int h;\n#ifdef A\nint ha;\n#endif\n",
                   "inc/k.h": "int k;\n", "s/p.c": "int p;\n", "s/q.c": "int q;\n", "s/t/r.c": "int r;\n", "s/t/u.c": "int u;\n", "unused.c": "int un;\n",
-                  # the same header name in two include directories which two platforms search in opposite order
+                  # the same header name in two include directories which two platforms search in opposite order; pc compiles
+                  # sel.c without any -I: <settings.h> is not found for it, and only for it
                   "ia/settings.h": "#define FROM_A\nint sa;\n", "ib/settings.h": "#define FROM_B\nint sb;\nint sb2;\n",
                   "sel.c": "#include <settings.h>\n#ifdef FROM_A\nint fa;\n#endif\n#ifdef FROM_B\nint fb;\n#endif\n"},
         "links": {"s/lq.c": "q.c"},
         "platforms": {"pa": [{"file": "m.c", "args": ["-DA"]}, {"file": "s/p.c", "args": []}, {"file": "sel.c", "args": ["-Iia", "-Iib"]}],
                       "pb": [{"file": "m.c", "args": ["-DB"]}, {"file": "s/q.c", "args": []}, {"file": "sel.c", "args": ["-Iib", "-Iia"]}],
-                      "pc": [{"file": "s/t/r.c", "args": []}], "pd": [{"file": "s/t/u.c", "args": []}, {"file": "m.c", "args": []}]},
+                      "pc": [{"file": "s/t/r.c", "args": []}, {"file": "sel.c", "args": []}], "pd": [{"file": "s/t/u.c", "args": []}, {"file": "m.c", "args": []}]},
     })
     I.append({
         "name": "compilers+passes",
@@ -364,9 +365,20 @@ def explore(ii, tier, bound):
         raise RuntimeError(f"default execution failed: {base[1]}")
     ref_obs, ref_trace = base[1], base[2]
     again = _run((ii, tier, []))
-    if again[1] != ref_obs or again[2] != ref_trace:
-        raise RuntimeError("replaying the default schedule gave different observations: uncontrolled nondeterminism in the harness")
+    if again[0] != "OK" or again[2] != ref_trace:
+        raise RuntimeError("replaying the default schedule gave a different trace of choice points: uncontrolled nondeterminism in the harness")
     ref_c, ref_s = content_view(ref_obs), serial_view(ref_obs)
+    if again[1] != ref_obs:
+        # every source of ordering is owned by the schedule and both runs took the same choices: what differs is state that
+        # the code under test carried from the first analysis into the second one in this process - itself a violation of
+        # "results are deterministic" (the later levels would only compare against a poisoned reference)
+        c2, s2 = content_view(again[1]), serial_view(again[1])
+        k = first_diff(ref_c, c2)
+        if k is not None:
+            return 2, len(ref_trace), [([], "repeat-content:" + k, ref_c[k], c2[k])], 2, ref_trace
+        k = first_diff(ref_s, s2)
+        if k is not None:
+            return 2, len(ref_trace), [([], "repeat-order:" + k, ref_s[k], s2[k])], 2, ref_trace
     level = [([], ref_trace)]
     executions = 1
     points = len(ref_trace)
@@ -452,6 +464,10 @@ def run(tier):
             if kind in seen:
                 continue
             seen.add(kind)
+            if kind.startswith("repeat-"):
+                rep.add([Failure(kind, {"input": inp["name"], "schedule": "default, executed twice in one process"}, expected=_clip(exp), observed=_clip(got),
+                                 note="the same input analysed twice with the same (sorted) orders gave different results: state carried from one analysis into the next")])
+                continue
             chk = confirm(ii, tier, prefix)
             rep.add([Failure(kind, {"input": inp["name"], "schedule": prefix, "deviation_at": _describe(prefix, chk[2])},
                              expected=_clip(exp), observed=_clip(got), note="observation under the default (sorted) schedule vs under this schedule")])
